@@ -167,7 +167,7 @@ def find_omega_wedge(g_w, twoth, wedge):
     for i in range(2):
         b = -sintth * n.sin(eta[i])
         somega = (b*g_w[0] - a*g_w[1])/(a*a + b*b)
-        comega = (g_w[0] - b*somega)/a
+        comega = (a*g_w[0] + b*g_w[1])/(a*a + b*b)
         
         omega.append(n.arctan2(somega, comega))
         if omega[i] > n.pi:
